@@ -119,4 +119,87 @@ theorem sqrtVtMv_scale (s : ℝ) (hs : 0 ≤ s) (M : M6 ℝ) (v : V3 ℝ) :
   unfold sqrtVtMv
   rw [vtMv_scale, sqrt_eq, sqrt_eq, Real.sqrt_mul (sq_nonneg s), Real.sqrt_sq hs]
 
+theorem normalize_ok {v n : V3 ℝ} (h : Refine.Model.Geom.normalize v = (St.ok, n)) :
+    Real.sqrt (vdot v v) ≠ 0 ∧
+    n = ⟨v.x / Real.sqrt (vdot v v), v.y / Real.sqrt (vdot v v), v.z / Real.sqrt (vdot v v)⟩ := by
+  unfold Refine.Model.Geom.normalize at h
+  simp only [dot_eq, sqrt_eq, div_eq] at h
+  split at h
+  · simp at h
+  · rename_i hg
+    simp only [Bool.or_eq_true, Bool.not_eq_true', not_or, Bool.not_eq_false] at hg
+    have hL := divisible_ne_zero hg.2
+    split at h
+    · simp only [Prod.mk.injEq, true_and] at h
+      exact ⟨hL, h.symm⟩
+    · simp at h
+
+/-- scalar core of one altitude direction: `(px/h·L)/(h·L) = px·E/N` given `h² = P`, `L² = E`, `P·E = N` -/
+theorem alt_core (px h L P E N : ℝ) (hh : h * h = P) (hL : L * L = E) (hN : P * E = N)
+    (h0 : h ≠ 0) (L0 : L ≠ 0) : (px / h * L) / (h * L) = px * E / N := by
+  have hP : P ≠ 0 := by rw [← hh]; exact mul_ne_zero h0 h0
+  have hE : E ≠ 0 := by rw [← hL]; exact mul_ne_zero L0 L0
+  have hNn : N ≠ 0 := by rw [← hN]; exact mul_ne_zero hP hE
+  rw [← hN, ← hh, ← hL]
+  field_simp
+
+
+theorem vdot_self_nonneg (v : V3 ℝ) : 0 ≤ vdot v v := by
+  simp only [vdot]; nlinarith [mul_self_nonneg v.x, mul_self_nonneg v.y, mul_self_nonneg v.z]
+
+/-- the coded altitude vector `e1 - (e1·(e2/L)) (e2/L)` -/
+noncomputable def altVec (e1 e2 : V3 ℝ) (L : ℝ) : V3 ℝ :=
+  ⟨e1.x - vdot e1 ⟨e2.x / L, e2.y / L, e2.z / L⟩ * (e2.x / L),
+   e1.y - vdot e1 ⟨e2.x / L, e2.y / L, e2.z / L⟩ * (e2.y / L),
+   e1.z - vdot e1 ⟨e2.x / L, e2.y / L, e2.z / L⟩ * (e2.z / L)⟩
+
+theorem altVec_scaled (e1 e2 : V3 ℝ) (L : ℝ) (hL : L * L = vdot e2 e2) (L0 : L ≠ 0) :
+    (altVec e1 e2 L).x * vdot e2 e2 = e1.x * vdot e2 e2 - vdot e1 e2 * e2.x ∧
+    (altVec e1 e2 L).y * vdot e2 e2 = e1.y * vdot e2 e2 - vdot e1 e2 * e2.y ∧
+    (altVec e1 e2 L).z * vdot e2 e2 = e1.z * vdot e2 e2 - vdot e1 e2 * e2.z := by
+  rw [← hL]
+  simp only [altVec, vdot]
+  refine ⟨?_, ?_, ?_⟩ <;> field_simp
+
+theorem altVec_norm (e1 e2 : V3 ℝ) (L : ℝ) (hL : L * L = vdot e2 e2) (L0 : L ≠ 0) :
+    vdot (altVec e1 e2 L) (altVec e1 e2 L) * vdot e2 e2 = vdot (cross e1 e2) (cross e1 e2) := by
+  obtain ⟨hx, hy, hz⟩ := altVec_scaled e1 e2 L hL L0
+  have hE : vdot e2 e2 ≠ 0 := by rw [← hL]; exact mul_ne_zero L0 L0
+  have key : (vdot (altVec e1 e2 L) (altVec e1 e2 L) * vdot e2 e2) * vdot e2 e2 =
+      vdot (cross e1 e2) (cross e1 e2) * vdot e2 e2 := by
+    have : (vdot (altVec e1 e2 L) (altVec e1 e2 L) * vdot e2 e2) * vdot e2 e2 =
+        ((altVec e1 e2 L).x * vdot e2 e2) ^ 2 + ((altVec e1 e2 L).y * vdot e2 e2) ^ 2 +
+        ((altVec e1 e2 L).z * vdot e2 e2) ^ 2 := by
+      simp only [vdot]; ring
+    rw [this, hx, hy, hz]
+    simp only [vdot, cross, sub_eq, mul_eq]; ring
+  exact mul_right_cancel₀ hE key
+
+/-- one component of the coded triangle gradient, after the square roots are eliminated -/
+theorem tri_comp (Δ1 Δ2 p1c p2c h1 h2 L1 L2 P1 P2 E1 E2 N A : ℝ)
+    (hh1 : h1 * h1 = P1) (hh2 : h2 * h2 = P2) (hL1 : L1 * L1 = E1) (hL2 : L2 * L2 = E2)
+    (hN1 : P1 * E2 = N) (hN2 : P2 * E1 = N) (hA1 : A = h1 * L2) (hA2 : A = h2 * L1)
+    (h10 : h1 ≠ 0) (h20 : h2 ≠ 0) (L10 : L1 ≠ 0) (L20 : L2 ≠ 0) :
+    (Δ1 * (p1c / h1 * L2) + Δ2 * (p2c / h2 * L1)) / A = (Δ1 * (p1c * E2) + Δ2 * (p2c * E1)) / N := by
+  have e1 := alt_core p1c h1 L2 P1 E2 N hh1 hL2 hN1 h10 L20
+  have e2 := alt_core p2c h2 L1 P2 E1 N hh2 hL1 hN2 h20 L10
+  have : (Δ1 * (p1c / h1 * L2) + Δ2 * (p2c / h2 * L1)) / A =
+      Δ1 * ((p1c / h1 * L2) / A) + Δ2 * ((p2c / h2 * L1) / A) := by ring
+  rw [this]
+  nth_rewrite 1 [hA1]
+  rw [hA2, e1, e2]; ring
+
+/-- the tangential-gradient identity (BAC-CAB), multiplied through by `N = |e1×e2|²` -/
+theorem tangent_identity (e1 e2 g : V3 ℝ) :
+    let n := cross e1 e2
+    let E1 := vdot e1 e1
+    let E2 := vdot e2 e2
+    let D := vdot e1 e2
+    vdot g e1 * (e1.x * E2 - D * e2.x) + vdot g e2 * (e2.x * E1 - D * e1.x) = g.x * vdot n n - vdot g n * n.x ∧
+    vdot g e1 * (e1.y * E2 - D * e2.y) + vdot g e2 * (e2.y * E1 - D * e1.y) = g.y * vdot n n - vdot g n * n.y ∧
+    vdot g e1 * (e1.z * E2 - D * e2.z) + vdot g e2 * (e2.z * E1 - D * e1.z) = g.z * vdot n n - vdot g n * n.z := by
+  simp only [vdot, cross, sub_eq, mul_eq]
+  refine ⟨?_, ?_, ?_⟩ <;> ring
+
+
 end Refine.GeomReal
